@@ -22,6 +22,9 @@ pub struct FileStack {
 struct Library {
     dir: bool,
     path: PathBuf,
+    /// The file name the library file was given with. (The path is canonical, so if the
+    /// library file is a symbolic link the path ends in the name of the file it points to.)
+    name: Option<OsString>,
 }
 
 impl FileStack {
@@ -43,12 +46,13 @@ impl FileStack {
     fn add_libraries(&mut self, libs: &[PathBuf], reports: &mut ReportCollection) {
         for path in libs {
             if path.is_dir() {
-                self.libraries.push(Library { dir: true, path: path.clone() });
+                self.libraries.push(Library { dir: true, path: path.clone(), name: None });
             } else if let Some(extension) = path.extension() {
                 // Add Circom files to file stack.
                 if extension == "circom" {
+                    let name = path.file_name().map(OsString::from);
                     match fs::canonicalize(path) {
-                        Ok(path) => self.libraries.push(Library { dir: false, path: path.clone() }),
+                        Ok(path) => self.libraries.push(Library { dir: false, path, name }),
                         Err(_) => {
                             reports.push(
                                 FileOsError { path: path.display().to_string() }.into_report(),
@@ -150,7 +154,7 @@ impl FileStack {
                 // ./lib.circom
                 if include.path.find(std::path::MAIN_SEPARATOR).is_none() {
                     debug!("checking if `{}` matches `{}`", include.path, lib.path.display());
-                    if lib.path.file_name().expect("good library file") == pathos {
+                    if lib.name.as_ref().expect("good library file") == &pathos {
                         debug!("adding include `{}` from file", lib.path.display());
                         self.stack.push(lib.path.clone());
                         return Ok(());
